@@ -10,6 +10,8 @@ CONSTANTS
   WithFaults = FALSE
   FailKinds = {"none", "device"}
   TmoKinds = {"short", "long"}
+  Disabled = {}
+  UseBad = FALSE
   WithLifecycle = TRUE
   InitDevice <- CoreInit
 VIEW view
